@@ -35,7 +35,7 @@ func Quiet() {
 // MemDB opens a fresh in-memory Badger.
 func MemDB() *badger.DB {
 	Quiet()
-	opt := badger.DefaultOptions("").WithInMemory(true).WithLogger(nil).WithMaxTableSize(1 << 20).WithNumMemtables(2)
+	opt := badger.DefaultOptions("").WithInMemory(true).WithEventLogging(false).WithLogger(nil).WithMaxTableSize(1 << 20).WithNumMemtables(2)
 	db, err := badger.Open(opt)
 	if err != nil {
 		panic(err)
